@@ -90,6 +90,9 @@ def run(ctx):
         flags = r.randrange(16) | (r.randrange(5) << 4)
         jobs.append([str(r.randrange(65536)), "4" if ctx.quick() else "12", str(r.choice([1, 3, 977, 5417])), str(flags), "0"])
         jobs.append([str(r.randrange(1, 128)), "3" if ctx.quick() else "10", str(r.choice([1, 2, 32, 31])), str(flags & 0x3f), "1"])
+    # strings made of escapes only (stress bit 32): step 64 walks the four escape patterns, v % 97 the run length
+    for k in range(2 if ctx.quick() else 12):
+        jobs.append([str(32 + r.randrange(11, 32) + 64 * k), "4" if ctx.quick() else "8", "64", str(r.randrange(16) | (r.choice([0, 2]) << 4)), "1"])
     with ThreadPoolExecutor(16) as ex:
         rs = list(ex.map(lambda j: sh([hj] + j, timeout=1500, env=ASAN_ENV), jobs))
     jfail, fixed_runs, variants = [], 0, 0
